@@ -151,6 +151,17 @@ BAD_TAIL = b"fichier introuvable: caf\xe9\n"  # Latin-1 text: not valid UTF-8
 EARLY_ERR = b"warning: this may take a while\n"  # what a chatty program prints on STDERR right after it was started
 
 
+EARLY_OUT = "starting\n"  # what some programs print on STDOUT right after the start
+
+
+def early_stdout(script, kind=None):
+    """STDOUT text a program has already written while it is still running: every second program that prints early on
+    STDERR does so on STDOUT as well (not the one whose STDOUT is its result)."""
+    if script.get("early_err") and script.get("tool_seed", 1) % 2 == 0 and kind != "mafft":
+        return EARLY_OUT
+    return ""
+
+
 def early_bytes(script):
     """STDERR bytes a program has already written when it is still running (script flag `early_err`); with `bad_bytes`
     the undecodable message is part of them instead of coming last."""
@@ -238,6 +249,7 @@ class SimPopen:
             return
         self.blocked = False
         code, out, err, report = self.rec.tool(self)
+        out = early_stdout(self.rec.script, getattr(self.rec, "kind", None)) + out
         self._code, self._out, self._err, self.tool_report = code, out, err, report
         self.state = "exited"
         w.stats["sim:child-exits"] += 1
@@ -281,7 +293,8 @@ class SimPopen:
                     # like the real communicate(): what has been read from the pipes so far travels with the exception,
                     # as bytes, also in text mode
                     early = early_bytes(self.rec.script) if self.draining else b""
-                    raise _real_subprocess.TimeoutExpired(self.args, timeout, output=None, stderr=early or None)
+                    eout = early_stdout(self.rec.script, getattr(self.rec, "kind", None)).encode() if self.draining else b""
+                    raise _real_subprocess.TimeoutExpired(self.args, timeout, output=eout or None, stderr=early or None)
 
     def communicate(self, input=None, timeout=None):
         self.communicates += 1
